@@ -96,6 +96,7 @@ var directedClasses = []directedClass{
 	{"impossible-interval", []string{"text-degree", "yaml", "yaml-base"}},
 	{"degree-zero", []string{"text-degree", "yaml"}},
 	{"null-instance", []string{"yaml"}},
+	{"inconsistent-dictionary", []string{"dict-write", "dict-write-event", "dict-write-parse", "dict-write-conv", "dict-chord-describe", "dict-attr-describe"}},
 }
 
 var scalelessKeys = func() []string {
@@ -291,6 +292,43 @@ func checkC09Directed(c C09Directed) *Violation {
 			yamlOverride = strings.Replace(doc.YAML(), "degree: "+yq(ivText(doc.Insts[j].Chord.Deg, false)), "degree: \"0\"", 1)
 			firstFailing = "write"
 		}
+	case "inconsistent-dictionary":
+		kind := pickFrom(seed, badDictKinds)
+		chords, attrs := badDictExtra(kind)
+		var d Dict
+		// a valid part first, so that the bad entries are not the only ones
+		d.ChordFiles = append(d.ChordFiles, []UChord{{Name: "Fine", Display: "fine", Attrs: []string{"Perfect1", "Major3"}, Extends: "SuspendSecond"}})
+		if chords != nil {
+			d.ChordFiles = append(d.ChordFiles, chords)
+		}
+		if attrs != nil {
+			d.AttrFiles = append(d.AttrFiles, attrs)
+		}
+		files, dargs := d.filesAndArgs()
+		var argv []string
+		stdin := doc.YAML()
+		switch c.Channel {
+		case "dict-write":
+			argv = append([]string{"write"}, dargs...)
+		case "dict-write-event":
+			argv = append([]string{"write", "event"}, dargs...)
+		case "dict-write-parse":
+			argv = append([]string{"write", "parse"}, dargs...)
+		case "dict-write-conv":
+			argv = append([]string{"write", "conv", "-c", "cmt"}, dargs...)
+		case "dict-chord-describe":
+			argv = append([]string{"info", "chord", "describe", "-t", "Cm"}, dargs...)
+			stdin = ""
+		case "dict-attr-describe":
+			argv = append([]string{"info", "attr", "describe", "-t", "Major3"}, dargs...)
+			stdin = ""
+		}
+		res := Run{Argv: argv, Stdin: stdin, Files: files}.Exec()
+		v := mustFail(res, fmt.Sprintf("inconsistent dictionary (%s) given to `crd %s`\n%s", kind, strings.Join(argv, " "), dumpFiles(files)))
+		if v != nil {
+			v.Sig = "bad-dict-" + kind + ":" + v.Sig
+		}
+		return v
 	case "null-instance":
 		y := doc.YAML()
 		yamlOverride = y + "- \n"
